@@ -12,8 +12,8 @@ import (
 // Export shims for the /verif harness (compiled only with -tags verif through
 // `go build -overlay`; nothing of this exists in /repo).
 
-// VerifValueAfterAccountUpdate calls valueAfterAccountUpdate.
-func VerifValueAfterAccountUpdate(value btcutil.Amount, outputs []*wire.TxOut,
+// VerifC07ValueAfterAccountUpdate calls valueAfterAccountUpdate.
+func VerifC07ValueAfterAccountUpdate(value btcutil.Amount, outputs []*wire.TxOut,
 	wt uint8, feeRate chainfee.SatPerKWeight) (btcutil.Amount, error) {
 
 	return valueAfterAccountUpdate(
@@ -21,35 +21,35 @@ func VerifValueAfterAccountUpdate(value btcutil.Amount, outputs []*wire.TxOut,
 	)
 }
 
-// VerifCloseOutputs calls FeeExpr.CloseOutputs.
-func VerifCloseOutputs(f FeeExpr, value btcutil.Amount,
+// VerifC07CloseOutputs calls FeeExpr.CloseOutputs.
+func VerifC07CloseOutputs(f FeeExpr, value btcutil.Amount,
 	wt uint8) ([]*wire.TxOut, error) {
 
 	return f.CloseOutputs(value, witnessType(wt))
 }
 
-// VerifWitnessSize calls witnessType.witnessSize and IsExpirySpend.
-func VerifWitnessSize(wt uint8) (int64, bool, error) {
+// VerifC07WitnessSize calls witnessType.witnessSize and IsExpirySpend.
+func VerifC07WitnessSize(wt uint8) (int64, bool, error) {
 	s, err := witnessType(wt).witnessSize()
 	return int64(s), witnessType(wt).IsExpirySpend(), err
 }
 
-// VerifSanityCheck calls sanityCheckAccountSpendTx.
-func VerifSanityCheck(a *Account, packet *psbt.Packet, wt uint8) error {
+// VerifC07SanityCheck calls sanityCheckAccountSpendTx.
+func VerifC07SanityCheck(a *Account, packet *psbt.Packet, wt uint8) error {
 	return sanityCheckAccountSpendTx(a, packet, witnessType(wt))
 }
 
-// VerifValidateAccountExpiry calls validateAccountExpiry.
-func VerifValidateAccountExpiry(expiry, best uint32) error {
+// VerifC07ValidateAccountExpiry calls validateAccountExpiry.
+func VerifC07ValidateAccountExpiry(expiry, best uint32) error {
 	return validateAccountExpiry(expiry, best)
 }
 
-// VerifValidateAccountValue calls validateAccountValue.
-func VerifValidateAccountValue(v, max btcutil.Amount) error {
+// VerifC07ValidateAccountValue calls validateAccountValue.
+func VerifC07ValidateAccountValue(v, max btcutil.Amount) error {
 	return validateAccountValue(v, max)
 }
 
-// VerifDetermineWitnessType calls determineWitnessType.
-func VerifDetermineWitnessType(a *Account, best uint32) uint8 {
+// VerifC07DetermineWitnessType calls determineWitnessType.
+func VerifC07DetermineWitnessType(a *Account, best uint32) uint8 {
 	return uint8(determineWitnessType(a, best))
 }
